@@ -25,18 +25,15 @@ theorem arrayLoop_total (d : Bytes) (f index : Nat) (acc : List Bytes) : (arrayL
   | zero => simp [arrayLoop, R.isPanic]
   | succ f ih =>
     unfold arrayLoop
-    by_cases h : index + 4 < d.length
+    by_cases h : index + 4 ≤ d.length
     · simp only [h, if_true]
       obtain ⟨vl, hv⟩ := u32At_some d index (by omega)
       simp only [hv]
-      by_cases h0 : vl = 0
-      · simp only [h0, if_true]; exact ih _ _
-      · simp only [h0, if_false]
-        by_cases hb : index + 4 + vl > d.length
-        · simp [hb, R.isPanic]
-        · simp only [hb, if_false]
-          obtain ⟨s, hs⟩ := sliceC_some d (index + 4) (index + 4 + vl) (by omega) (by omega)
-          simp only [hs]; exact ih _ _
+      by_cases hb : index + 4 + vl > d.length
+      · simp [hb, R.isPanic]
+      · simp only [hb, if_false]
+        obtain ⟨s, hs⟩ := sliceC_some d (index + 4) (index + 4 + vl) (by omega) (by omega)
+        simp only [hs]; exact ih _ _
     · simp [h, R.isPanic]
 
 theorem kvLoop_total (d : Bytes) (f index : Nat) (acc : List (Bytes × Bytes)) : (kvLoop d f index acc).isPanic = false := by
